@@ -15,6 +15,7 @@ import (
 	"os"
 	"sort"
 	"strings"
+	"time"
 
 	"github.com/semihalev/twig"
 )
@@ -256,9 +257,12 @@ func cmdCacheHist(args []string) {
 			os.Exit(2)
 		}
 		n++
-		res := runCacheHist(&c, rec, n)
+		res, hung := guarded(20*time.Second, func() Result { return runCacheHist(&c, rec, n) }, func() Result { return hangResult(c.Prop, c.Key, c.Tags, "cache history") })
 		enc.Encode(res)
 		w.Flush()
+		if hung {
+			os.Exit(3)
+		}
 	}
 }
 
